@@ -87,26 +87,32 @@ func StringElementToTypedValue(s string, ls *sdcpb.LeafSchema) (*sdcpb.TypedValu
 // pathElem2EtreePath takes the given pathElem and creates an xpath expression out of it,
 // which is then used to build an etree.Path, which is then returned
 func pathElem2EtreePath(pe *sdcpb.PathElem) (etree.Path, error) {
-	xpathString, err := pathElem2XPath(pe)
-	if err != nil {
-		return etree.Path{}, err
+	// etree takes one filter per key: name[k1='a'][k2='b']
+	return etree.CompilePath("./" + pe.GetName() + joinKeyFilters(pathElemKeyFilters(pe), "]["))
+}
+
+// pathElemKeyFilters returns the keys of the given PathElem as filters k='v', sorted
+func pathElemKeyFilters(pe *sdcpb.PathElem) []string {
+	keys := make([]string, 0, len(pe.GetKey()))
+	// prepare the keys -> "k='v'"
+	for k, v := range pe.GetKey() {
+		keys = append(keys, fmt.Sprintf("%s='%s'", k, v))
 	}
-	return etree.CompilePath(xpathString)
+	sort.Strings(keys)
+	return keys
+}
+
+func joinKeyFilters(keys []string, sep string) string {
+	if len(keys) == 0 {
+		return ""
+	}
+	return "[" + strings.Join(keys, sep) + "]"
 }
 
 // pathElem2XPath takes the given PathElem and generates the corresponding xpath expression
 func pathElem2XPath(pe *sdcpb.PathElem) (string, error) {
-	keys := make([]string, 0, len(pe.GetKey()))
-	// prepare the keys -> "k='v'"
-	for k, v := range pe.Key {
-		keys = append(keys, fmt.Sprintf("%s='%s'", k, v))
-	}
-	sort.Strings(keys)
-	keyString := ""
-	if len(keys) > 0 {
-		// join multiple key elements via comma
-		keyString = "[" + strings.Join(keys, ",") + "]"
-	}
+	// join multiple key elements via comma
+	keyString := joinKeyFilters(pathElemKeyFilters(pe), ",")
 
 	// build the final xpath
 	filterString := fmt.Sprintf("./%s%s", pe.Name, keyString)
